@@ -438,7 +438,7 @@ def run_recenter(case):
     # 1e-12 * the smallest dimension); without them a harmless change that merely reads the tolerance would raise here
     Rectangle.undefine_epsilon()
     try:
-        Rectangle.set_epsilon(min(min(float(r["w"]), float(r["h"])) for r in case["rects"]) * 1e-12)
+        Rectangle.set_epsilon(min([min(float(r["w"]), float(r["h"])) for r in case["rects"]] or [1.0]) * 1e-12)
         m = Module("H", hard=True)
         for r in case["rects"]:
             m.add_rectangle(fr.mk_rect(r))
